@@ -2,7 +2,7 @@
    Only statements closed by `exact`, with Print Assumptions, and non-vacuity examples. *)
 From Coq Require Import List ZArith Bool.
 From PV Require Import lib.Sx lib.Str lib.Result model.DfxpXml model.DfxpRegion model.DfxpDoc model.DfxpSkel spec.SpecXmlAttr spec.SpecXmlDoc.
-From PV Require Import proofs.XmlAttrFacts proofs.DfxpRegionFacts proofs.DfxpPayloadFacts proofs.DfxpDocFacts proofs.DfxpSkelFacts.
+From PV Require Import proofs.XmlAttrFacts proofs.DfxpRegionFacts proofs.DfxpPayloadFacts proofs.DfxpDocFacts proofs.DfxpSkelFacts proofs.DfxpSkelRootFacts.
 Import ListNotations.
 Open Scope Z_scope.
 
@@ -144,6 +144,24 @@ Print Assumptions C07_content_in_context.
 Theorem C07_sorted_attrs_ok : forall attrs, attrs_ok attrs [] -> attrs_ok (sort_attrs attrs) [].
 Proof. exact attrs_ok_sorted. Qed.
 Print Assumptions C07_sorted_attrs_ok.
+
+(* the root of the rendered document, read back by the document machine: the first event opens `tt` with the sorted
+   root dictionary - values decoded; for the writers' root dictionary: xmlns is the TTML namespace (root_in_ns) and
+   xml:lang is the language code that was given, whatever XML characters it contains *)
+Theorem C07_document_root : forall d, skdoc_ok d ->
+  exists rest, doc_parse (dfxp_document d) = Some (EOpen tt_name (sort_attrs (k_tt d)) :: rest).
+Proof. exact skeleton_root. Qed.
+Print Assumptions C07_document_root.
+Theorem C07_document_of_captions_root_in_ttml_namespace : forall legacy ids lang styles regions divs,
+  forallb is_xml_char lang = true ->
+  Forall (fun a => attrs_ok a []) styles -> Forall (fun a => attrs_ok a []) regions ->
+  Forall (fun dv => attrs_ok (fst dv) [] /\ Forall (caption_ok ids) (snd dv)) divs ->
+  exists rest, doc_parse (dfxp_document (doc_of_captions legacy ids lang styles regions divs))
+               = Some (EOpen (lit "tt") [(lit "xml:lang", lang); (lit "xmlns", ttml_ns); (lit "xmlns:tts", tts_ns)] :: rest)
+               /\ root_in_ns (lit "tt") ttml_ns
+                    (EOpen (lit "tt") [(lit "xml:lang", lang); (lit "xmlns", ttml_ns); (lit "xmlns:tts", tts_ns)] :: rest) = true.
+Proof. exact document_of_captions_root. Qed.
+Print Assumptions C07_document_of_captions_root_in_ttml_namespace.
 
 (* ---- non-vacuity ------------------------------------------------------------------------------------------------ *)
 Example C07_example_attr :
